@@ -967,8 +967,13 @@ def r13_5(ctx: Ctx):
         ctx.ob("R13.5", closing, "back-fill", True, "back-fill seek/write not recognised", undecided=True)
         return
     pmc = parents_map(closing.node)
-    gfill = [(norm(t), pol) for t, pol in guards_of(fill, pmc)]
-    ctx.ob("R13.5", closing, "back-fill guarded by %s" % gfill, gfill == [("self._natoms is None", True)],
+    from ..cfg import cguards_of
+    # closing an empty file (nothing declared, nothing written) is a separate early exit; whether it is spelled as a
+    # guard clause or as an enclosing else-branch, statements after it carry at most that one extra guard
+    empty_exit = {canon_test(ast.parse("self._natoms is None and self._current_atom == 0", mode="eval").body, False)}
+    undeclared = canon_test(ast.parse("self._natoms is None", mode="eval").body, True)
+    gfill = set(cguards_of(fill, pmc))
+    ctx.ob("R13.5", closing, "back-fill guarded by %s" % sorted(gfill - empty_exit), undeclared in gfill and gfill - {undeclared} <= empty_exit,
            "the count is back-filled exactly when it was not declared up front", node=fill)
     # declared count: a mismatch with the number of records written is an error
     mism = [n_ for n_ in walk_no_nested(closing.node) if isinstance(n_, ast.If) and norm(n_.test).replace(" ", "") in
@@ -981,8 +986,8 @@ def r13_5(ctx: Ctx):
     box_w = [s_ for s_ in flat_c if isinstance(s_, ast.Expr) and any(call_name(c) == "dump_lattice_gro" for c in ast.walk(s_) if isinstance(c, ast.Call))]
     seek_end = [s_ for s_ in flat_c if isinstance(s_, ast.Expr) and isinstance(s_.value, ast.Call) and call_name(s_.value) == "seek_atom"
                 and norm(s_.value.args[0]) in ("self._natoms", "self.natoms")]
-    oks = bool(box_w) and bool(seek_end) and seek_end[-1] in closing.node.body and box_w[-1] in closing.node.body \
-        and closing.node.body.index(seek_end[-1]) < closing.node.body.index(box_w[-1]) and seek_end[-1].lineno > fill.lineno
+    oks = bool(box_w) and bool(seek_end) and set(cguards_of(seek_end[-1], pmc)) <= empty_exit and set(cguards_of(box_w[-1], pmc)) <= empty_exit \
+        and seek_end[-1].lineno < box_w[-1].lineno and seek_end[-1].lineno > fill.lineno
     ctx.ob("R13.5", closing, seek_end[-1] if seek_end else "seek to the end of the records", oks,
            "after the count is back-filled the writer returns to the end of the atom records before writing the box line",
            node=seek_end[-1] if seek_end else closing.node)
